@@ -40,17 +40,35 @@ Inductive pv :=
 
 Inductive res (A : Type) :=
   | Ok (a : A)
-  | Exc (cls : string)          (* a Python exception of that class *)
+  | Exc (cls : string)          (* a Python exception of that class (raised by a primitive: no state yet) *)
+  | ExcS (cls : string) (st : list (string * pv))
+                                (* the same, carrying the environment at the point of the raise, so that
+                                   state changes made before the raise survive a later [except] *)
   | Fuel                        (* interpreter fuel exhausted *)
   | Unsupported (why : string). (* outside the subset: never caught *)
-Arguments Ok {A}. Arguments Exc {A}. Arguments Fuel {A}. Arguments Unsupported {A}.
+Arguments Ok {A}. Arguments Exc {A}. Arguments ExcS {A}. Arguments Fuel {A}. Arguments Unsupported {A}.
 
 Definition bind {A B} (r : res A) (f : A -> res B) : res B :=
   match r with
   | Ok a => f a
   | Exc c => Exc c
+  | ExcS c st => ExcS c st
   | Fuel => Fuel
   | Unsupported w => Unsupported w
+  end.
+
+(** give a raise the environment it happens in (an inner state, e.g. of a callee, is replaced) *)
+Definition attach {A} (e : list (string * pv)) (r : res A) : res A :=
+  match r with
+  | Exc c | ExcS c _ => ExcS c e
+  | x => x
+  end.
+
+(** forget the state: results of the entry points *)
+Definition strip {A} (r : res A) : res A :=
+  match r with
+  | ExcS c _ => Exc c
+  | x => x
   end.
 Notation "'do' x <- r ; k" := (bind r (fun x => k)) (at level 200, x pattern, r at level 100, k at level 200).
 
@@ -1038,54 +1056,64 @@ Section Interp.
     match r with
     | PObj c fs =>
         match lookup m fs with
-        | Some fv => do x <- call_value fv args kws; Ok (x, r)
+        | Some fv => do x <- strip (call_value fv args kws); Ok (x, r)   (* a callable kept in a field: its state is not ours *)
         | None =>
             match find_method P mro_depth c m with
             | Some f =>
-                do x <- callf f (r :: args) kws;
-                Ok (fst x, match snd x with Some s => s | None => r end)
+                match callf f (r :: args) kws with
+                | Ok x => Ok (fst x, match snd x with Some s => s | None => r end)
+                | Exc c => Exc c
+                | ExcS c st => ExcS c st      (* [("$self", receiver at the raise)] from [call_func] *)
+                | Fuel => Fuel
+                | Unsupported w => Unsupported w
+                end
             | None => Exc "AttributeError"
             end
         end
-    | PMod _ | PCls _ => do fv <- get_attr r m; do x <- call_value fv args kws; Ok (x, r)
+    | PMod _ | PCls _ => do fv <- strip (get_attr r m); do x <- strip (call_value fv args kws); Ok (x, r)
     | _ => value_method r m args kws
     end.
 
   Fixpoint eval (e : env) (x : expr) {struct x} : res (pv * env) :=
     match x with
     | EConst v => Ok (v, e)
-    | EName n => do v <- resolve_name e n; Ok (v, e)
-    | EAttr q a => do (v, e1) <- eval e q; do r <- get_attr v a; Ok (r, e1)
+    | EName n => do v <- attach e (resolve_name e n); Ok (v, e)
+    | EAttr q a => do (v, e1) <- eval e q; do r <- attach e1 (get_attr v a); Ok (r, e1)
     | ECall f args kws =>
         match f with
         | EAttr recv m =>
             do (r, e1) <- eval e recv;
             do (vs, e2) <- eval_list e1 args;
             do (ks, e3) <- eval_kws e2 kws;
-            do (x, r') <- call_method_value r m vs ks;
-            Ok (x, write_back P e3 recv r')
+            match call_method_value r m vs ks with
+            | Ok (x, r') => Ok (x, write_back P e3 recv r')
+            | ExcS c ((_, r') :: nil) => ExcS c (write_back P e3 recv r')   (* the callee changed its receiver, then raised *)
+            | ExcS c _ | Exc c => ExcS c e3
+            | Fuel => Fuel
+            | Unsupported w => Unsupported w
+            end
         | _ =>
             do (fv, e1) <- eval e f;
             do (vs, e2) <- eval_list e1 args;
             do (ks, e3) <- eval_kws e2 kws;
-            do x <- call_value fv vs ks;
+            do x <- attach e3 (call_value fv vs ks);
             Ok (x, e3)
         end
     | EBin op a b =>
         do (va, e1) <- eval e a; do (vb, e2) <- eval e1 b;
-        do r <- py_binop op va vb; Ok (r, e2)
+        do r <- attach e2 (py_binop op va vb); Ok (r, e2)
     | ENot a => do (va, e1) <- eval e a; Ok (PBool (negb (truthy va)), e1)
     | ENeg a => do (va, e1) <- eval e a;
         match as_int va with Some z => Ok (PInt (- z), e1) | None => Unsupported "negation" end
     | EAnd a b => do (va, e1) <- eval e a; if truthy va then eval e1 b else Ok (va, e1)
     | EOr a b => do (va, e1) <- eval e a; if truthy va then Ok (va, e1) else eval e1 b
     | ECmp a cs => do (va, e1) <- eval e a; eval_cmps e1 va cs
-    | EIndex q i => do (v, e1) <- eval e q; do (vi, e2) <- eval e1 i; do r <- py_index v vi; Ok (r, e2)
+    | EIndex q i => do (v, e1) <- eval e q; do (vi, e2) <- eval e1 i; do r <- attach e2 (py_index v vi); Ok (r, e2)
     | ESlice q lo hi =>
         do (v, e1) <- eval e q;
         do (l, e2) <- eval_opt e1 lo;
         do (h, e3) <- eval_opt e2 hi;
-        do r <- py_slice v l h; Ok (r, e3)
+        do r <- attach e3 (py_slice v l h); Ok (r, e3)
     | ETuple es => do (vs, e1) <- eval_list e es; Ok (PTuple vs, e1)
     | EList es => do (vs, e1) <- eval_list e es; Ok (PList vs, e1)
     | EIf c a b => do (vc, e1) <- eval e c; if truthy vc then eval e1 a else eval e1 b
@@ -1097,11 +1125,11 @@ Section Interp.
         do (vi, e1) <- eval e it;
         do l <- iter_list vi;
         (* the comprehension variable lives in its own scope *)
-        do vs <- (fix go (l : list pv) : res (list pv) :=
+        do vs <- attach e1 ((fix go (l : list pv) : res (list pv) :=
                     match l with
                     | [] => Ok []
                     | y :: r => do (v, _) <- eval ((n, y) :: e1) elt; do t <- go r; Ok (v :: t)
-                    end) l;
+                    end) l);
         Ok (match k with KTuple => PTuple vs | KList => PList vs end, e1)
     | EDict ks vs =>
         do (kl, e1) <- eval_list e ks;
@@ -1127,7 +1155,7 @@ Section Interp.
     | Cnil => Ok (PBool true, e)
     | Ccons op x r =>
         do (v, e1) <- eval e x;
-        do b <- py_cmp op left v;
+        do b <- attach e1 (py_cmp op left v);
         if b then eval_cmps e1 v r else Ok (PBool false, e1)
     end
   with eval_opt (e : env) (o : oexpr) {struct o} : res (option Z * env) :=
@@ -1137,7 +1165,7 @@ Section Interp.
         do (v, e1) <- eval e x;
         match v with
         | PNone => Ok (None, e1)
-        | _ => match as_int v with Some z => Ok (Some z, e1) | None => Exc "TypeError" end
+        | _ => match as_int v with Some z => Ok (Some z, e1) | None => ExcS "TypeError" e1 end
         end
     end.
 
@@ -1220,15 +1248,15 @@ Section Interp.
 
   Fixpoint exec (e : env) (s : stmt) {struct s} : res out :=
     match s with
-    | SAssign t x => do (v, e1) <- eval e x; do e2 <- assign e1 t v; Ok (ONorm e2)
+    | SAssign t x => do (v, e1) <- eval e x; do e2 <- attach e1 (assign e1 t v); Ok (ONorm e2)
     | SAug t op x =>
         match target_expr t with
         | None => Unsupported "augmented target"
         | Some tx =>
             do (old, e1) <- eval e tx;
             do (v, e2) <- eval e1 x;
-            do r <- py_binop op old v;
-            do e3 <- assign e2 t r; Ok (ONorm e3)
+            do r <- attach e2 (py_binop op old v);
+            do e3 <- attach e2 (assign e2 t r); Ok (ONorm e3)
         end
     | SExpr x => do (_, e1) <- eval e x; Ok (ONorm e1)
     | SIf c a b => do (vc, e1) <- eval e c; if truthy vc then exec_block e1 a else exec_block e1 b
@@ -1254,7 +1282,7 @@ Section Interp.
            match l with
            | [] => Ok (ONorm e)
            | y :: r =>
-               do e1 <- assign e t y;
+               do e1 <- attach e (assign e t y);
                do o <- exec_block e1 b;
                match o with
                | ONorm e2 | OCont e2 => loop r e2
@@ -1269,14 +1297,15 @@ Section Interp.
         end
     | SRaise x =>
         match x with
-        | ECall (EName c) _ _ => Exc c
-        | EName c => Exc c
+        | ECall (EName c) _ _ => ExcS c e
+        | EName c => ExcS c e
         | _ => Unsupported "raise"
         end
-    | SAssert x => do (v, e1) <- eval e x; if truthy v then Ok (ONorm e1) else Exc "AssertionError"
+    | SAssert x => do (v, e1) <- eval e x; if truthy v then Ok (ONorm e1) else ExcS "AssertionError" e1
     | STry b hs =>
         match exec_block e b with
         | Exc c => exec_handlers e c hs
+        | ExcS c e' => exec_handlers e' c hs     (* the handler sees what the body did before the raise *)
         | r => r
         end
     | SPass => Ok (ONorm e)
@@ -1295,35 +1324,45 @@ Section Interp.
     end
   with exec_handlers (e : env) (c : string) (hs : handlers) {struct hs} : res out :=
     match hs with
-    | Hnil => Exc c
+    | Hnil => ExcS c e
     | Hcons h b r => if exc_matches h c then exec_block e b else exec_handlers e c r
     end.
 
 End Interp.
 
 (** run a function: result and the final value of its first parameter *)
+(** what a raise tells the caller about the callee: the receiver at that point *)
+Definition self_state (f : func) (e : env) : list (string * pv) :=
+  match f_params f with
+  | (x, _) :: _ => match lookup x e with Some v => [("$self", v)] | None => [] end
+  | [] => []
+  end.
+
 Fixpoint call_func (P : prog) (n : nat) (f : func) (args : list pv) (kws : list (string * pv))
   : res (pv * option pv) :=
   match n with
   | O => Fuel
   | S n' =>
       let callf := call_func P n' in
-      do e <- bind_params (fun d => do r <- eval P callf [] d; Ok (fst r)) (f_params f) args kws;
-      do o <- exec_block P callf n' e (f_body f);
+      do e <- strip (bind_params (fun d => do r <- eval P callf [] d; Ok (fst r)) (f_params f) args kws);
       let fin e' := match f_params f with (x, _) :: _ => lookup x e' | [] => None end in
-      match o with
-      | ONorm e' => Ok (PNone, fin e')
-      | ORet v e' => Ok (v, fin e')
-      | OBrk _ | OCont _ => Unsupported "break outside loop"
+      match exec_block P callf n' e (f_body f) with
+      | Ok (ONorm e') => Ok (PNone, fin e')
+      | Ok (ORet v e') => Ok (v, fin e')
+      | Ok (OBrk _) | Ok (OCont _) => Unsupported "break outside loop"
+      | Exc c => Exc c
+      | ExcS c e' => ExcS c (self_state f e')
+      | Fuel => Fuel
+      | Unsupported w => Unsupported w
       end
   end.
 
 (** entry points *)
 Definition call_method (P : prog) (n : nat) (self : pv) (m : string) (args : list pv) : res (pv * pv) :=
-  call_method_value P (call_func P n) self m args [].
+  strip (call_method_value P (call_func P n) self m args []).
 
 Definition construct (P : prog) (n : nat) (cls : string) (args : list pv) : res pv :=
-  call_value P (call_func P n) (PCls cls) args [].
+  strip (call_value P (call_func P n) (PCls cls) args []).
 
 Definition call_function (P : prog) (n : nat) (f : string) (args : list pv) : res pv :=
-  call_value P (call_func P n) (PFunc f) args [].
+  strip (call_value P (call_func P n) (PFunc f) args []).
